@@ -82,7 +82,7 @@ for pid in sorted(P):
             "engine": eng,
             "level_claimed": {"category": ("fault_enumeration" if pid == "C08" else "exploration"), "text": text, "design_ref": ref},
             "level_note": note,
-            "technique": tech + (" + E6 live-process lane (external monitor over the production event loop in a real process, DESIGN.md 9.1)" if pid in ("C01", "C07", "C08", "C09", "C14", "C18", "C19") else ""),
+            "technique": tech + (" + E6 live-process lane (external monitor over the production event loop in a real process, DESIGN.md 9.1)" if pid in ("C01", "C07", "C08", "C09", "C14", "C18", "C19", "C20") else ""),
         })
     else:
         na.append({"property_id": pid, "reason": "check not built yet in this revision of /verif (runtime-monitoring design exists in DESIGN.md section 4; no claim is made until the monitor runs)"})
@@ -103,7 +103,7 @@ m = {
         {"name": "E3-codec-differential", "path": "harness/src/props/c15.rs", "serves_properties": ["C15"], "kind_free_text": "differential vs independent reference codec"},
         {"name": "E4-control-plane", "path": "harness/src/props/c18.rs", "serves_properties": ["C18"], "kind_free_text": "JSON-RPC model, process lane, concurrent lane"},
         {"name": "E5-schedule-fuzzer", "path": "harness/src/props/c20.rs", "serves_properties": ["C20"], "kind_free_text": "seeded executor polling the real hub futures in hostile orders + real runtime lanes"},
-        {"name": "E6-live-process", "path": "harness/src/live", "serves_properties": ["C01", "C07", "C08", "C09", "C14", "C18", "C19"], "kind_free_text": "the production run_sender_with_config in a real process (harness/src/bin/vlive.rs) on loopback sockets and the real clock; the harness plays SRT client, SRTLA receiver, path faults, receiver restarts, SIGHUP reloads and hostile return traffic and monitors kernel-timestamped datagrams on both sides plus the sender's stats pushes (its logical clock); also run under valgrind and as ASan / TSan builds"},
+        {"name": "E6-live-process", "path": "harness/src/live", "serves_properties": ["C01", "C07", "C08", "C09", "C14", "C18", "C19", "C20"], "kind_free_text": "the production run_sender_with_config in a real process (harness/src/bin/vlive.rs) on loopback sockets and the real clock; the harness plays SRT client, SRTLA receiver, path faults, receiver restarts, SIGHUP reloads and hostile return traffic and monitors kernel-timestamped datagrams on both sides plus the sender's stats pushes (its logical clock); also run under valgrind and as ASan / TSan builds"},
     ],
     "checks": checks,
     "not_applicable": na,
